@@ -750,7 +750,8 @@ class AndMaybeMatcher(AdditiveBiMatcher):
         ra = self.a.skip_to(id)
         rb = False
         if self.a.is_active() and self.b.is_active():
-            rb = self.b.skip_to(id)
+            # Follow the required matcher to where it actually landed
+            rb = self.b.skip_to(self.a.id())
         return ra or rb
 
     def replace(self, minquality=0):
